@@ -295,6 +295,27 @@ def main(chk):
                detail_bad='the file name does not carry the extension of the writer actually used', detail_ok="fname + '.' + file_format")
     chk.unit('functions', ['get_particles_info', 'Output.dump', 'NumpyOutput._dump/_load', 'HDFOutput._dump/_load/_get_particles/_set_properties/'
                            '_set_constants/_get_constants/_set_solver_data/_get_solver_data', 'dump', 'load', 'ParticleArray.get_property_arrays/add_property'])
+    # ---- the file name asked for is the file name written: the extension is split off as a suffix, never "stripped" as a set of characters
+    dmp = M.find_func(out, 'dump')
+    ld = M.find_func(out, 'load')
+    nstrip = 0
+    for fn_ in (dmp, ld):
+        for c in M.calls(fn_):
+            if isinstance(c.func, ast.Attribute) and c.func.attr in ('strip', 'rstrip', 'lstrip') and c.args:
+                a0 = c.args[0]
+                single = isinstance(a0, ast.Constant) and isinstance(a0.value, str) and len(a0.value) <= 1
+                nstrip += 1
+                chk.decide(single, 'file-name-kept', '%s:%s' % (fn_.name, U(c)[:50]), node=c, file=OUT, func=fn_.name,
+                           detail_bad='`%s` removes every trailing character that occurs in the argument, not the suffix: `drop_15.hdf5` becomes `drop_1`, `setup.npz` becomes `setu` - '
+                                      'the dump lands under another name (possibly over another step\'s file) and load() of the requested name fails' % U(c),
+                           detail_ok='single character strip')
+    base = [a for a in ast.walk(dmp) if isinstance(a, ast.Assign) and U(a.targets[0]) == 'fname']
+    okb = bool(base) and all((isinstance(a.value, ast.Subscript) and isinstance(a.value.value, ast.Call) and M.call_name(a.value.value) == 'os.path.splitext' and
+                              U(a.value.value.args[0]) == 'filename' and U(a.value.slice) == '0') or U(a.value) == 'filename' or
+                             (isinstance(a.value, ast.Subscript) and isinstance(a.value.slice, ast.Slice) and U(a.value.value) == 'filename') for a in base)
+    chk.decide(okb, 'file-name-kept', 'dump:base-name', node=base[0] if base else dmp, file=OUT, func='dump',
+               detail_bad='the base name of the dump is %s: expected os.path.splitext(filename)[0], a slice of filename, or filename itself' % [U(a.value) for a in base],
+               detail_ok='os.path.splitext(filename)[0] / filename')
     chk.assume('numpy.savez / h5py store and return the values they are given (value equality and dtypes are not decided)')
 
 
